@@ -11,3 +11,6 @@ open SteelVerif.C19
 #print axioms reuse_before_grow
 #print axioms no_growth_while_free
 #print axioms weak_box_cleared
+#print axioms heap_bounded
+#print axioms run_bounded
+#print axioms markedCount_le_reachable
